@@ -19,7 +19,10 @@ RULE = ("search: for every problem of each plug-in's family (all clue layouts on
         "specification rules_<p>.  A case is one problem instance; it is non-trivial when distinct.  "
         "Tier 2: per instance the captured program is emitted as a Coq term and the kernel checks "
         "sat_abs(program, answer) = rules_<p>(problem, answer) for every candidate answer (vm_compute).  "
-        "Tier 1 tie (P): captured program of solve_sudoku = program of the Coq model solve_sudoku_model.")
+        "Tier 1 tie (P), for every plug-in with a TIER1 attribute (sudoku, norinori, putteria, star_battle, aquarium, creek, akari, "
+        "building, doppelblock): the program captured from the real solve_<p> (declarations, answer keys, constraints as a "
+        "multiset) = the program of the Coq model solve_<p>_model, on every problem of tier1_problems (all tiny boards, "
+        "random larger and non-square ones, malformed inputs that raise).")
 TRUSTED = [
     "the executable rule specifications coq/theories/Puzzle/Rules_<p>.v (written from the published rules quoted in each file header) and the candidate-answer lists answers_<p>",
     "z3 (search only) deciding the captured programs through harness/c11lib.py::to_z3 (independent of cspuz.backend.z3)",
@@ -27,7 +30,8 @@ TRUSTED = [
     "Core/Expr.v eval as the meaning of posted constraints",
 ]
 ASSUMPTIONS = [
-    "Tier 2 and search are bounded by the instance families listed in evidence (tiny boards); unbounded statements exist only for the Tier-1 modules",
+    "Tier 2 and search are bounded by the instance families listed in evidence (tiny boards); unbounded statements exist only for the Tier-1 modules (sudoku, norinori, putteria, star_battle, aquarium, creek, akari, building, doppelblock)",
+    "aquarium Tier 1: every tank (region) is orthogonally connected; creek Tier 1 composes with property C04 (Graph/Avc.v::post_avc is the model of graph.active_vertices_connected, tied to the Python by C04's own check)",
     "Solver.solve derives (is_sat, decided cells) from the posted program as property C02 states; backends decide programs correctly (C01)",
     "well-formed problems: regions partition the board into orthogonally connected sets, clue values within the module's documented alphabet",
 ]
